@@ -583,6 +583,7 @@ func facts() map[string]any {
 		"nodata_exceptions":     exc,
 		"max_nsec3_iterations":  dnssec.VerifC02MaxNSEC3Iterations(),
 		"max_safe_iterations":   maxSafe,
+		"typesset_mismatches":   typesSetMismatches(),
 		"nsec3_safe_flags":      safeFlags,
 		"nsec3_safe_algorithms": safeAlgs,
 	}
@@ -593,3 +594,25 @@ func facts() map[string]any {
 }
 
 func main() { vlib.Main(&vlib.Driver{Facts: facts, Exec: exec, Gen: gen}) }
+
+// typesSetMismatches: every 16-bit RR type t for which the real typesSet is not
+// plain membership on a battery around t: {t} must contain t (alone, and next to
+// another wanted type), and must not contain the types a word-sized or windowed
+// bit trick would confuse it with (t^64, t+-64, t mod 64, t+-256, t mod 256).
+func typesSetMismatches() []int {
+	out := []int{}
+	for t := 0; t < 65536; t++ {
+		tt := uint16(t)
+		bad := !dnssec.VerifC02TypesSet([]uint16{tt}, tt) || !dnssec.VerifC02TypesSet([]uint16{1, tt}, 5, tt) ||
+			!dnssec.VerifC02TypesSet([]uint16{tt, 65535 - tt}, tt)
+		for _, o := range []uint16{tt ^ 64, tt + 64, tt - 64, tt % 64, tt + 256, tt - 256, tt % 256} {
+			if o != tt && dnssec.VerifC02TypesSet([]uint16{tt}, o) {
+				bad = true
+			}
+		}
+		if bad {
+			out = append(out, t)
+		}
+	}
+	return out
+}
